@@ -2,13 +2,14 @@
 
     1. [gen_add_term_is_model]: the statement list generated from include/pomerol/TermList.h is the retry loop
        (PV.LehmannInterpProofs.model_add_term); hence the interpreted add_term of the source is [add_term_ref].
-    2. PV.TermList.add_term (the model of C01 / C14) is the form the function had BEFORE the repair of the refused
-       re-insertion: find, erase(key), insert.  The two forms are related here:
+    2. PV.TermList.add_term (the model of C01 / C14) is the same retry loop with ghost events: the two agree on EVERY input,
+       for ANY comparator, step for step ([add_term_ref_is_loop], [add_term_ref_is_termlist], [add_terms_ref_is_termlist]).
+    3. PV.TermList.add_term_findform is the form the function had BEFORE the repair of the refused re-insertion (find,
+       erase(key), insert).  It is related to the present form here, as a documented fact about the OLD form:
          - on a set that satisfies the invariant [sorted_sep] (strict partial order as comparator) they agree whenever at most
-           one stored term is like the new one ([add_term_ref_is_termlist]); they DIFFER when the new pole is closer than the
+           one stored term is like the new one ([add_term_findform_agrees]); they DIFFER when the new pole is closer than the
            tolerance to two stored poles: find() returns the lower neighbour, the refused insert() the upper one
-           ([add_term_forms_differ]);
-         - for a total comparator (tolerance 0, the exact form of the theorems) they agree always ([add_term_ref_is_termlist_total]). *)
+           ([add_term_forms_differ]). *)
 Require Import Bool List Arith Lia.
 From PV Require Import TermList TermListProofs LehmannShapes LehmannInterp LehmannInterpProofs.
 From PVgen Require Import Gen_LehAddTerm Gen_LehTermListEval.
@@ -52,33 +53,83 @@ Proof.
   rewrite IH. destruct (scan P C (fun x => comp (pole t) (pole x)) r); reflexivity.
 Qed.
 
-(** the interpreted insert is std::set::insert of PV.TermList: same new sequence, same `second` *)
+(** the interpreted insert is std::set::insert of PV.TermList: same verdict, same blocking element, same sequences *)
+Lemma insert_src_is_set_insert_res (t : term) (l : list term) :
+  insert_src term tcomp t l =
+  match set_insert_res P C comp t l with
+  | Inserted l' => ((true, t, l), l')
+  | Blocked b e a => ((false, e, b ++ a), l)
+  end.
+Proof.
+  unfold insert_src, set_insert_res. rewrite split_upper_is_scan.
+  pose proof (scan_app_eq P C (fun x => comp (pole t) (pole x)) l) as E.
+  destruct (scan P C (fun x => comp (pole t) (pole x)) l) as [B A]. cbn [fst snd] in *.
+  destruct (rev B) as [|j r] eqn:R.
+  - assert (B = []) by (rewrite <- (rev_involutive B), R; reflexivity). subst B. cbn [app] in E. subst A. reflexivity.
+  - unfold tcomp. destruct (comp (pole j) (pole t)); reflexivity.
+Qed.
+
 Lemma insert_src_is_set_insert (t : term) (l : list term) :
   snd (insert_src term tcomp t l) = fst (set_insert P C comp t l) /\
   fst (fst (fst (insert_src term tcomp t l))) = snd (set_insert P C comp t l).
 Proof.
-  unfold insert_src, set_insert. rewrite split_upper_is_scan.
-  pose proof (scan_app_eq P C (fun x => comp (pole t) (pole x)) l) as E.
-  destruct (scan P C (fun x => comp (pole t) (pole x)) l) as [B A]. cbn [fst snd] in *.
-  destruct (rev B) as [|j r] eqn:R.
-  - assert (B = []) by (rewrite <- (rev_involutive B), R; reflexivity). subst B. cbn [app] in E. subst A. split; reflexivity.
-  - unfold tcomp. destruct (comp (pole j) (pole t)); split; reflexivity.
+  rewrite insert_src_is_set_insert_res. unfold set_insert.
+  destruct (set_insert_res P C comp t l); split; reflexivity.
 Qed.
 
+(** the loop of the source and the loop of the model, for every bound: same final sequence, and the source's loop is cut short
+    exactly when the model says so *)
+Definition fin_ok (f : final) : bool := match f with FinFuel => false | _ => true end.
+Theorem add_term_ref_is_loop : forall (n : nat) (t : term) (l : list term),
+  ref n t l = (fin_ok (snd (snd (add_term_loop P C comp negl cadd n t l))), fst (add_term_loop P C comp negl cadd n t l)).
+Proof.
+  induction n as [|n IH]; intros t l; cbn [add_term_ref add_term_loop]; rewrite insert_src_is_set_insert_res;
+    destruct (set_insert_res P C comp t l) as [l'|b e a]; cbn [fst snd]; try reflexivity;
+    change (tplus e t) with ((pole e, cadd (residue e) (residue t)) : term); unfold tnegl at 1;
+    destruct (negl (residue (pole e, cadd (residue e) (residue t))) (length (b ++ a) + 1)); cbn [fst snd fin_ok]; try reflexivity.
+  apply IH.
+Qed.
+
+(** with the bound of the source (the number of stored terms) neither is ever cut short: the source's add_term IS the model's,
+    whatever the comparator and the stored sequence *)
+Theorem add_term_ref_is_termlist (t : term) (l : list term) :
+  ref (length l) t l = (true, fst (add_term P C comp negl cadd t l)).
+Proof.
+  rewrite add_term_ref_is_loop. unfold add_term. cbn [fst]. f_equal.
+  pose proof (add_term_loop_fuel P C comp negl cadd (length l) t l (Nat.le_refl _)) as H.
+  destruct (snd (snd (add_term_loop P C comp negl cadd (length l) t l))); try reflexivity. exfalso. apply H. reflexivity.
+Qed.
+
+Definition add_terms_ref (ts : list term) (l : list term) : list term :=
+  fold_left (fun l t => snd (ref (length l) t l)) ts l.
+
+Theorem add_terms_ref_is_termlist : forall (ts l : list term),
+  add_terms_ref ts l = fst (add_terms P C comp negl cadd ts l).
+Proof.
+  induction ts as [|t ts IH]; intros l; [reflexivity|].
+  unfold add_terms_ref. cbn [fold_left add_terms fst]. rewrite (add_term_ref_is_termlist t l). cbn [snd]. apply IH.
+Qed.
+
+(** * the former form of add_term (find / erase(key) / insert) against the present one *)
 (** no like term, insertion not refused: both forms insert *)
 Lemma ref_new (n : nat) (t : term) (l : list term) :
   set_find P C comp (pole t) l = None -> snd (set_insert P C comp t l) = true ->
-  ref n t l = (true, fst (add_term P C comp negl cadd t l)).
+  ref n t l = (true, add_term_findform P C comp negl cadd t l).
 Proof.
-  intros F I. unfold add_term. rewrite F. cbn [fst].
+  intros F I. unfold add_term_findform. rewrite F.
   destruct (insert_src_is_set_insert t l) as [E1 E2]. rewrite I in E2.
   destruct n; cbn [add_term_ref]; rewrite E2, E1; reflexivity.
 Qed.
 
-Theorem add_term_ref_is_termlist_total :
+(** for a total comparator (tolerance 0, the exact form) the two forms agree always *)
+Theorem add_term_findform_agrees_total :
   (forall a b, comp a b = false -> comp b a = true) ->
-  forall (n : nat) (t : term) (l : list term), ref n t l = (true, fst (add_term P C comp negl cadd t l)).
-Proof. intros Ht n t l. apply ref_new; [apply find_none_total; exact Ht|apply insert_total; exact Ht]. Qed.
+  forall (t : term) (l : list term), fst (add_term P C comp negl cadd t l) = add_term_findform P C comp negl cadd t l.
+Proof.
+  intros Ht t l. pose proof (add_term_ref_is_termlist t l) as E1.
+  rewrite (ref_new (length l) t l (find_none_total P C comp Ht _ _) (insert_total P C comp Ht _ _)) in E1.
+  injection E1 as E1. symmetry. exact E1.
+Qed.
 
 (** ** strict partial order *)
 Hypothesis comp_irrefl : forall a, comp a a = false.
@@ -108,9 +159,9 @@ Proof.
   - destruct A as [|y A]; [exact I|]. cbn [head_true]. apply HA. left. reflexivity.
 Qed.
 
-Theorem add_term_ref_is_termlist (t : term) (l : list term) :
+Lemma add_term_ref_is_findform (t : term) (l : list term) :
   sorted_sep P C comp l -> unambiguous1 t l = true ->
-  ref (length l) t l = (true, fst (add_term P C comp negl cadd t l)).
+  ref (length l) t l = (true, add_term_findform P C comp negl cadd t l).
 Proof.
   intros Hs Hu. pose proof (find_split P C comp comp_trans (pole t) l Hs) as F.
   destruct (set_find P C comp (pole t) l) as [x|] eqn:Ef.
@@ -129,7 +180,7 @@ Proof.
       destruct (comp (pole y) (pole t)) eqn:E2; [|discriminate Ly].
       pose proof (comp_trans _ _ _ (Hg y Hy) E2) as X. rewrite H1 in X. discriminate X. }
     (* the old form *)
-    unfold add_term. rewrite Ef. rewrite (erase_at P C comp comp_irrefl comp_trans x B A Hs). cbn [fst snd].
+    unfold add_term_findform. rewrite Ef. rewrite (erase_at P C comp comp_irrefl comp_trans x B A Hs). cbn [fst snd].
     (* the new form: blocked by x *)
     assert (Hins : insert_src term tcomp t (B ++ x :: A) = ((false, x, B ++ A), B ++ x :: A)).
     { unfold insert_src. rewrite split_upper_is_scan.
@@ -140,7 +191,7 @@ Proof.
       - destruct A as [|y A']; [exact I|]. cbn [head_true]. apply HA. left. reflexivity. }
     rewrite app_length. cbn [length]. rewrite Nat.add_succ_r. cbn [add_term_ref]. rewrite Hins. cbn [fst snd].
     change (tplus x t) with ((pole x, cadd (residue x) (residue t)) : term).
-    unfold tnegl at 1. rewrite Nat.add_1_r. rewrite <- app_length.
+    unfold tnegl at 1. rewrite Nat.add_1_r. rewrite <- app_length. cbn [fst snd].
     destruct (negl (residue (pole x, cadd (residue x) (residue t))) (S (length (B ++ A)))); [reflexivity|].
     assert (HB' : all_lt P C comp B (pole x)) by (intros z Hz; apply Hc; [exact Hz|left; reflexivity]).
     rewrite (insert_at P C comp comp_irrefl comp_trans (pole x, cadd (residue x) (residue t)) B A HB' Hg). cbn [fst].
@@ -150,56 +201,39 @@ Proof.
     rewrite (insert_at P C comp comp_irrefl comp_trans t B A HB HA). reflexivity.
 Qed.
 
-(** sequences of add_term calls: every step unambiguous *)
-Fixpoint unambiguous (ts : list term) (l : list term) : bool :=
-  match ts with
-  | [] => true
-  | t :: r => unambiguous1 t l && unambiguous r (fst (add_term P C comp negl cadd t l))
-  end.
-Definition add_terms_ref (ts : list term) (l : list term) : list term :=
-  fold_left (fun l t => snd (ref (length l) t l)) ts l.
-
-Theorem add_terms_ref_is_termlist : forall (ts l : list term),
-  sorted_sep P C comp l -> unambiguous ts l = true -> add_terms_ref ts l = fst (add_terms P C comp negl cadd ts l).
+(** the present form (the model, = the source) and the former form agree whenever at most one stored term is like the new one *)
+Theorem add_term_findform_agrees (t : term) (l : list term) :
+  sorted_sep P C comp l -> unambiguous1 t l = true ->
+  fst (add_term P C comp negl cadd t l) = add_term_findform P C comp negl cadd t l.
 Proof.
-  induction ts as [|t ts IH]; intros l Hs Hu; [reflexivity|].
-  cbn [unambiguous] in Hu. apply andb_prop in Hu. destruct Hu as [H1 H2].
-  unfold add_terms_ref. cbn [fold_left add_terms fst]. rewrite (add_term_ref_is_termlist t l Hs H1). cbn [snd].
-  apply IH; [apply (add_term_sorted P C comp negl cadd comp_irrefl comp_trans); exact Hs|exact H2].
+  intros Hs Hu. pose proof (add_term_ref_is_termlist t l) as E1. rewrite (add_term_ref_is_findform t l Hs Hu) in E1.
+  injection E1 as E1. symmetry. exact E1.
 Qed.
 End Bridge.
 
-(** total comparator: sequences *)
-Theorem add_terms_ref_is_termlist_total (P C : Type) (comp : P -> P -> bool) (negl : C -> nat -> bool) (cadd : C -> C -> C) :
-  (forall a b, comp a b = false -> comp b a = true) ->
-  forall ts l, add_terms_ref P C comp negl cadd ts l = fst (add_terms P C comp negl cadd ts l).
-Proof.
-  intros Ht. induction ts as [|t ts IH]; intros l; [reflexivity|].
-  unfold add_terms_ref. cbn [fold_left add_terms fst]. rewrite (add_term_ref_is_termlist_total P C comp negl cadd Ht). cbn [snd]. apply IH.
-Qed.
-
 (** the two forms of add_term are different functions: poles 0 and 15 stored, tolerance 10, new pole 8 (closer than the
-    tolerance to both): find() returns the term at 0, the refused insert() points to the term at 15 *)
+    tolerance to both): find() returns the term at 0 (the OLD form merges into it), the refused insert() points to the term
+    at 15 (the source and the model merge into that one) *)
 Definition ncomp (x y : nat) : bool := x + 10 <=? y.
 Example add_term_forms_differ :
   let l := [(0, 1); (15, 1)] in
   let t := (8, 1) in
   sorted_sep nat nat ncomp l /\
-  fst (add_term nat nat ncomp (fun _ _ => false) Nat.add t l) = [(0, 2); (15, 1)] /\
+  add_term_findform nat nat ncomp (fun _ _ => false) Nat.add t l = [(0, 2); (15, 1)] /\
   add_term_ref (nat * nat) (tcomp nat nat ncomp) (tplus nat nat Nat.add) (tnegl nat nat (fun _ _ => false)) (length l) t l
     = (true, [(0, 1); (15, 2)]) /\
+  add_term nat nat ncomp (fun _ _ => false) Nat.add t l = ([(0, 1); (15, 2)], EvChain [((15, 1), (15, 2))] FinInserted) /\
   unambiguous1 nat nat ncomp t l = false.
 Proof. cbv. repeat split. Qed.
 
-(** the hypotheses of [add_term_ref_is_termlist] are satisfiable: same set, new pole 3 (like the pole 0 only): both forms merge into 0 *)
+(** the hypotheses of [add_term_findform_agrees] are satisfiable: same set, new pole 3 (like the pole 0 only): both forms merge into 0 *)
 Example add_term_forms_agree :
   let l := [(0, 1); (15, 1)] in
   let t := (3, 1) in
   sorted_sep nat nat ncomp l /\ unambiguous1 nat nat ncomp t l = true /\
   (forall a, ncomp a a = false) /\ (forall a b c, ncomp a b = true -> ncomp b c = true -> ncomp a c = true) /\
-  add_term_ref (nat * nat) (tcomp nat nat ncomp) (tplus nat nat Nat.add) (tnegl nat nat (fun _ _ => false)) (length l) t l
-    = (true, fst (add_term nat nat ncomp (fun _ _ => false) Nat.add t l)) /\
-  fst (add_term nat nat ncomp (fun _ _ => false) Nat.add t l) = [(0, 2); (15, 1)].
+  fst (add_term nat nat ncomp (fun _ _ => false) Nat.add t l) = add_term_findform nat nat ncomp (fun _ _ => false) Nat.add t l /\
+  add_term_findform nat nat ncomp (fun _ _ => false) Nat.add t l = [(0, 2); (15, 1)].
 Proof.
   split; [cbv; repeat split|]. split; [reflexivity|].
   split; [intros a; unfold ncomp; apply Nat.leb_gt; lia|].
